@@ -4,6 +4,8 @@ scikit-image's radon and iradon functions fully implemented in Torch.
 Reference: van der Walt, S., et al. (2014). scikit-image: image processing in Python. PeerJ, 2, e453.
 """
 
+import math
+
 import torch
 import torch.nn.functional as F
 
@@ -117,6 +119,14 @@ def iradon_torch(
     if output_size is None:
         output_size = N if circle else int(torch.floor(torch.sqrt(torch.tensor(N**2 / 2.0))))
 
+    if circle:
+        # as scikit-image (_sinogram_circle_to_square): pad the detector axis to the image
+        # diagonal before filtering, keeping the rotation axis at index N // 2
+        diagonal = int(math.ceil(math.sqrt(2) * N))
+        pad_before = diagonal // 2 - N // 2
+        sinograms = F.pad(sinograms, (pad_before, diagonal - N - pad_before))
+        N = diagonal
+
     # Padding for FFT
     padded_size = max(
         64, int(2 ** torch.ceil(torch.log2(torch.tensor(2 * N, dtype=torch.float32))))
@@ -156,6 +166,8 @@ def iradon_torch(
         val1 = torch.gather(filtered_i, 1, t1.view(B, -1)).view(B, output_size, output_size)
 
         proj = (1 - w) * val0 + w * val1
+        # np.interp(..., left=0, right=0): no contribution from outside the detector
+        proj = proj * ((t_idx >= 0) & (t_idx <= N - 1))
         recon += proj
 
     if circle:
